@@ -57,3 +57,11 @@ class Cylinder(CenteredScatterer):
                                            "".format(rotation))
         self.rotation = rotation
         super().__init__(center)
+
+        try:
+            if np.any(np.array([self.d, self.h]) < 0):
+                raise InvalidScatterer(self, "diameter or height is negative")
+        except TypeError:
+            # unset values and priors as arguments are not checked (as for
+            # Sphere)
+            pass
